@@ -58,6 +58,9 @@ def pick_family(prop, tier, index):
     return fams[-1][0]
 
 
+WALL_CLOCK_EVERY = 1500
+
+
 def make_plan(prop, seed, tier, index):
     family = pick_family(prop, tier, index)
     rs = run_seed(seed, prop.id, family, index)
@@ -69,6 +72,16 @@ def make_plan(prop, seed, tier, index):
     plan["seed"] = seed
     plan["index"] = index
     plan.setdefault("prng_seed", rs & 0xFFFFFFFF)
+    every = max(40, getattr(prop, "quick_runs", WALL_CLOCK_EVERY * 24) // 24)
+    if index % every == every // 2 and len(plan.get("ops") or []) >= 2:
+        # wall-clock perturbation (about 24 runs of a quick batch): a real pause of 1.1 s between two
+        # operations during which no simulated time passes - invisible to code that keeps to the seams
+        ops = plan["ops"]
+        pos = max(1, len(ops) // 2)
+        pause = {"op": "idle", "ns": 1, "real_s": 1.1}
+        if "s" in ops[pos - 1]:
+            pause["s"] = ops[pos - 1]["s"]
+        ops.insert(pos, pause)
     return plan
 
 
